@@ -444,6 +444,122 @@ Qed.
 End Bounds.
 End WithCfg.
 
+(* ---------- the window is the last 64 bytes of the chunk at every cut decision ---------- *)
+Definition lastn {A} (n : nat) (l : list A) : list A := skipn (length l - n) l.
+
+Lemma lastn_app {A} n (x y : list A) : (n <= length y)%nat -> lastn n (x ++ y) = lastn n y.
+Proof.
+  intros H. unfold lastn. rewrite app_length, skipn_app.
+  rewrite skipn_all2 by lia. cbn [app]. f_equal. lia.
+Qed.
+
+Lemma tl_skipn {A} k : forall (l : list A), tl (skipn k l) = skipn (S k) l.
+Proof. induction k as [|k IH]; intros [|x l]; cbn [skipn tl]; try reflexivity. apply IH. Qed.
+
+Lemma push_lastn l b : (64 <= length l)%nat -> push (lastn 64 l) b = lastn 64 (l ++ [b]).
+Proof.
+  intros H. unfold push, lastn. rewrite tl_skipn, app_length. cbn [length].
+  replace (length l + 1 - 64)%nat with (S (length l - 64)) by lia.
+  rewrite skipn_app. replace (S (length l - 64) - length l)%nat with 0%nat by lia. reflexivity.
+Qed.
+
+Lemma init_win_length : length init_win = 64%nat.
+Proof. reflexivity. Qed.
+
+Section Window.
+Variable c : cfg.
+Hypothesis mn_ge : 64 <= mn c.
+
+(* acc = bytes of the current chunk so far; they split into the bytes skipped by the pre phase and the
+   bytes pushed into the window *)
+Definition winv (s : st) (acc : bytes) : Prop :=
+  exists skipped pushed, acc = skipped ++ pushed /\ blen acc = cnt s
+    /\ blen skipped + pre s = mn c - 64 /\ (0 < pre s -> pushed = [])
+    /\ win s = lastn 64 (init_win ++ pushed).
+
+Lemma winv_reset : winv (reset_st c) [].
+Proof.
+  exists [], []. unfold reset_st, wsize. cbn [win pre cnt app]. rewrite blen_nil.
+  repeat split; try reflexivity; lia.
+Qed.
+
+Lemma winv_step s acc b : winv s acc ->
+  winv (snd (step1 c s b)) (if fst (step1 c s b) then [] else acc ++ [b]).
+Proof.
+  intros (sk & pu & Ha & Hc & Hp & Hz & Hw). unfold step1.
+  destruct (0 <? pre s) eqn:E.
+  - cbn [fst snd]. specialize (Hz ltac:(lia)). subst pu. rewrite app_nil_r in Ha. subst sk.
+    exists (acc ++ [b]), []. cbn [win pre cnt]. rewrite app_nil_r, !blen_app, blen_cons, blen_nil.
+    repeat split; try lia; try reflexivity. exact Hw.
+  - destruct (cutcond c (push (win s) b) (cnt s + 1)); cbn [fst snd].
+    + apply winv_reset.
+    + subst acc. rewrite blen_app in Hc.
+      exists sk, (pu ++ [b]). cbn [win pre cnt]. rewrite !blen_app, blen_cons, blen_nil, <- app_assoc.
+      repeat split; try lia; try reflexivity.
+      rewrite Hw, push_lastn by (rewrite app_length, init_win_length; lia).
+      rewrite <- app_assoc. reflexivity.
+Qed.
+
+Lemma winv_spec_cuts d : forall s acc, winv s acc ->
+  winv (fst (snd (spec_cuts c s acc d))) (snd (snd (spec_cuts c s acc d))).
+Proof.
+  induction d as [|b t IH]; intros s acc H; cbn [spec_cuts]; [exact H|].
+  pose proof (winv_step s acc b H) as W. destruct (step1 c s b) as [cut s']. cbn [fst snd] in W.
+  destruct cut.
+  - specialize (IH s' [] W). destruct (spec_cuts c s' [] t) as [ch e]. exact IH.
+  - apply IH, W.
+Qed.
+
+(* at a position where a cut is possible (count + 1 >= MinSize) the chunker is past its pre phase and
+   the window it hashes after pushing b is exactly the last 64 bytes of the chunk including b *)
+Lemma window_at_decision s acc b : winv s acc -> mn c <= cnt s + 1 ->
+  pre s = 0 /\ push (win s) b = lastn 64 (acc ++ [b]).
+Proof.
+  intros (sk & pu & Ha & Hc & Hp & Hz & Hw) Hm.
+  assert (P0 : pre s = 0).
+  { destruct (0 <? pre s) eqn:E; [|lia]. specialize (Hz ltac:(lia)). subst pu.
+    rewrite app_nil_r in Ha. subst sk. lia. }
+  split; [exact P0|].
+  rewrite Ha, blen_app in Hc. unfold blen in *.
+  rewrite Hw, push_lastn by (rewrite app_length, init_win_length; lia).
+  rewrite Ha, <- !app_assoc.
+  rewrite (lastn_app 64 init_win (pu ++ [b])) by (rewrite app_length; cbn [length]; lia).
+  rewrite (lastn_app 64 sk (pu ++ [b])) by (rewrite app_length; cbn [length]; lia).
+  reflexivity.
+Qed.
+
+(* cut_is_local: after any prefix d of a file, the decision taken on the next byte b, when a cut is
+   allowed at all, depends only on the last 64 bytes of the current chunk and on its length *)
+Lemma cut_is_local d b :
+  let s := fst (snd (spec_cuts c (reset_st c) [] d)) in
+  let acc := snd (snd (spec_cuts c (reset_st c) [] d)) in
+  mn c <= blen acc + 1 ->
+  fst (step1 c s b) = (hit c (lastn 64 (acc ++ [b])) || (mx c <=? blen acc + 1)).
+Proof.
+  intros s acc Hm.
+  pose proof (winv_spec_cuts d (reset_st c) [] winv_reset) as W. fold s acc in W.
+  assert (Hc : blen acc = cnt s) by (destruct W as (sk & pu & _ & Hc & _); exact Hc).
+  rewrite Hc in Hm. destruct (window_at_decision s acc b W Hm) as [P0 Hw].
+  unfold step1. rewrite P0. change (0 <? 0) with false. cbv iota.
+  rewrite Hw, Hc. unfold cutcond. destruct (cnt s + 1 <? mn c) eqn:E; [lia|].
+  destruct (hit c (lastn 64 (acc ++ [b])) || (mx c <=? cnt s + 1)); reflexivity.
+Qed.
+
+(* and before MinSize no cut happens whatever the bytes are *)
+Lemma no_cut_before_min d b :
+  let s := fst (snd (spec_cuts c (reset_st c) [] d)) in
+  let acc := snd (snd (spec_cuts c (reset_st c) [] d)) in
+  blen acc + 1 < mn c -> fst (step1 c s b) = false.
+Proof.
+  intros s acc Hm.
+  pose proof (winv_spec_cuts d (reset_st c) [] winv_reset) as W. fold s acc in W.
+  destruct W as (sk & pu & _ & Hc & _). rewrite Hc in Hm.
+  unfold step1. destruct (0 <? pre s); [reflexivity|].
+  unfold cutcond. destruct (cnt s + 1 <? mn c) eqn:E; [reflexivity | lia].
+Qed.
+
+End Window.
+
 (* ---------- oracle ---------- *)
 Lemma chunks_eqb_spec a b : chunks_eqb a b = true <-> a = b.
 Proof. apply list_eqb_spec. exact bytes_eqb_spec. Qed.
